@@ -92,18 +92,18 @@ def _kernel_contract(vc, clsname, spec, n_extra):
                                                       grads[q][i, j] == derivative(B[i, j], d_theta(q))))
 
 
-@contract("C10", "squared_exponential", native=False)
+@contract("C10", "squared_exponential", native=False, replay_with="covariance_native")
 def squared_exponential(vc):
     _kernel_contract(vc, "SquaredExponential", se_spec, 1)
 
 
-@contract("C10", "rational_quadratic", native=False)
+@contract("C10", "rational_quadratic", native=False, replay_with="covariance_native")
 def rational_quadratic(vc):
     _kernel_contract(vc, "RationalQuadratic", rq_spec, 2)
 
 
 # ---- noise kernels -------------------------------------------------------------------------------------------
-@contract("C10", "white_noise", native=False)
+@contract("C10", "white_noise", native=False, replay_with="covariance_native")
 def white_noise(vc):
     d = vc.choice("d", [1, 2])
     n, m, k = vc.int("n", lo=1), vc.int("m", lo=1), vc.int("k", lo=1)
@@ -123,7 +123,7 @@ def white_noise(vc):
     vc.ensures_forall("gradients.exact", (n, n), lambda i, j: grads[0][i, j] == derivative(B[i, j], d_theta(0)))
 
 
-@contract("C10", "heteroscedastic_noise", native=False)
+@contract("C10", "heteroscedastic_noise", native=False, replay_with="covariance_native")
 def heteroscedastic_noise(vc):
     d = vc.choice("d", [1, 2, 3])
     n = vc.choice("n", [1, 2, 3])          # one hyper-parameter per data point: proved per listed size
@@ -146,7 +146,7 @@ def heteroscedastic_noise(vc):
 
 
 # ---- composites ----------------------------------------------------------------------------------------------
-@contract("C10", "slice_builder", native=False)
+@contract("C10", "slice_builder", native=False, replay_with="covariance_native")
 def slice_builder(vc):
     k = vc.choice("n_components", [1, 2, 3, 4])
     lengths = [vc.int(f"len{i}", lo=0) for i in range(k)]
@@ -158,7 +158,7 @@ def slice_builder(vc):
         start = start + lengths[i]
 
 
-@contract("C10", "composite", native=False)
+@contract("C10", "composite", native=False, replay_with="covariance_native")
 def composite(vc):
     """a sum of kernels: value, gradients, labels and bounds are those of the components concatenated in order"""
     vc.c.numeric_filter = True
@@ -216,7 +216,7 @@ def _logistic(vc, x, loc, width):
     return 1.0 / (1.0 + vc.exp(-(x - loc) / width))
 
 
-@contract("C10", "change_point_logistic", native=False)
+@contract("C10", "change_point_logistic", native=False, replay_with="covariance_native")
 def change_point_logistic(vc):
     """the logistic weight and its two partial derivatives (location, width)"""
     n = vc.int("n", lo=1)
@@ -232,7 +232,7 @@ def change_point_logistic(vc):
         vc.ensures_forall("gradients.exact", n, lambda a, q=q: grads[q][a] == derivative(w[a], d_theta(q)))
 
 
-@contract("C10", "change_point", native=False)
+@contract("C10", "change_point", native=False, replay_with="covariance_native")
 def change_point(vc):
     """change-point combination of 2, 3 or 4 squared-exponential kernels (proved per listed number of kernels).
     The logistic weights are modular here (their contract is change_point_logistic): W_t(a) with partial
@@ -342,19 +342,19 @@ def _mean_contract(vc, clsname, n_params_of_d, spec):
         vc.ensures_forall("gradients.exact", n, lambda i, t=t: grads[t][i] == derivative(mu[i], d_theta(t)))
 
 
-@contract("C10", "constant_mean", native=False)
+@contract("C10", "constant_mean", native=False, replay_with="covariance_native")
 def constant_mean(vc):
     _mean_contract(vc, "ConstantMean", lambda d: 1, lambda vc_, x, xm, th, d: (lambda pt: th[0]))
 
 
-@contract("C10", "linear_mean", native=False)
+@contract("C10", "linear_mean", native=False, replay_with="covariance_native")
 def linear_mean(vc):
     def spec(vc_, x, xm, th, d):
         return lambda pt: th[0] + sum((pt(c) - xm[c]) * th[1 + c] for c in range(d))
     _mean_contract(vc, "LinearMean", lambda d: 1 + d, spec)
 
 
-@contract("C10", "quadratic_mean", native=False)
+@contract("C10", "quadratic_mean", native=False, replay_with="covariance_native")
 def quadratic_mean(vc):
     def spec(vc_, x, xm, th, d):
         return lambda pt: (th[0] + sum((pt(c) - xm[c]) * th[1 + c] for c in range(d))
